@@ -102,6 +102,9 @@ def c04(tier, replay):
     n = 120 if tier == "quick" else 2000
     totals, _ = R.rules_trace(run, "C04", ["--playouts", n, "--plies", 40, "--text", 1, "--pos", 1, "--repeat-bias", 0.2], "playout")
     R.need(totals, ["gen", "castle", "ep", "promo", "pos"])
+    # the position command inside the real command loop (instrumented binary): board after every position command
+    import checks_uci
+    checks_uci.position_dumps(run, "C04", tier)
     R.games_direction_a(run, "C04", ("text-apply", "text-apply-panic", "position-final", "position-panic"), 25 if tier == "quick" else 300)
     model_game(run, tier)
     run.cov["rule"] = RULE_TEXT % n_seeds() + ("; direction spec->code: games simulated by TLC from Chess.tla replayed through make_move / play_out_position at every prefix; every generated successor's printed text is replayed through uci::make_move and "
